@@ -13,7 +13,11 @@
 //!    (`H5V.Model.Dom.contractOk` in Lean) on a shadow structure of the handle-bearing nodes
 //!    (kind, parent) and records `(op index, which clause)` in `violations`
 //!    (reported by engines as `CONTRACT-VIOLATION <which>`),
-//!  * optionally keeps every handle alive (`handles`), which engines use to dump the result.
+//!  * optionally keeps every handle alive (`handles`), which engines use to dump the result,
+//!  * simulates a garbage-collected DOM (property C18): `collect(roots)` marks every handle-bearing
+//!    node that is not connected (parent / children / template-contents links) to one of the
+//!    traced roots as *poisoned*; a later sink call that receives a poisoned handle is recorded in
+//!    `poison_hits` (`POISONED-HANDLE-USED`).
 use crate::proto::{parse_string, show_str};
 use markup5ever::interface::tree_builder::{ElementFlags, NodeOrText, QuirksMode, TreeSink};
 use markup5ever::{Attribute, LocalName, Namespace, Prefix, QualName};
@@ -330,8 +334,64 @@ pub struct TracingSink<S: TreeSink> {
     pub shadow: RefCell<Shadow>,
     /// every handle ever handed out, by number (only when `keep_handles`)
     pub handles: RefCell<Vec<S::Handle>>,
+    /// C18: nodes a simulated collection has discarded, and the calls that used one afterwards
+    pub poisoned: RefCell<Vec<bool>>,
+    pub poison_hits: RefCell<Vec<(usize, String)>>,
     keep_handles: bool,
     next: Cell<usize>,
+}
+
+/// `Tracer` that records the numbers of the handles reported by `trace_handles`
+pub struct IdTracer<H> {
+    pub ids: RefCell<Vec<usize>>,
+    _h: std::marker::PhantomData<H>,
+}
+
+impl<H> Default for IdTracer<H> {
+    fn default() -> Self {
+        IdTracer {
+            ids: RefCell::new(vec![]),
+            _h: std::marker::PhantomData,
+        }
+    }
+}
+
+impl<H> markup5ever::interface::tree_builder::Tracer for IdTracer<H> {
+    type Handle = TracedHandle<H>;
+    fn trace_handle(&self, node: &TracedHandle<H>) {
+        self.ids.borrow_mut().push(node.id);
+    }
+}
+
+/// the handle numbers among the fields of an op line (see the module documentation)
+pub fn handle_args(line: &str) -> Vec<usize> {
+    let f: Vec<&str> = line.split(',').collect();
+    let num = |s: &str| s.parse::<usize>().ok();
+    let child = |s: &str| s.strip_prefix('n').and_then(|x| x.parse::<usize>().ok());
+    let mut v: Vec<Option<usize>> = vec![];
+    match f[0] {
+        "en" | "ms" | "pop" | "tc" | "rm" | "ip" | "adsr" | "mc" | "aa" => v.push(num(f[1])),
+        "sn" | "rc" | "ads" => {
+            v.push(num(f[1]));
+            v.push(num(f[2]));
+        },
+        "ap" | "abs" => {
+            v.push(num(f[1]));
+            v.push(child(f[2]));
+        },
+        "abp" => {
+            v.push(num(f[1]));
+            v.push(num(f[2]));
+            v.push(child(f[3]));
+        },
+        "af" => {
+            for x in &f[1..5] {
+                v.push(num(x));
+            }
+        },
+        _ => {},
+    }
+    v.into_iter().flatten().collect()
 }
 
 pub struct TraceOutput<S: TreeSink> {
@@ -371,6 +431,8 @@ impl<S: TreeSink> TracingSink<S> {
             violations: RefCell::new(vec![]),
             shadow: RefCell::new(Shadow::default()),
             handles: RefCell::new(vec![]),
+            poisoned: RefCell::new(vec![]),
+            poison_hits: RefCell::new(vec![]),
             keep_handles,
             next: Cell::new(0),
         };
@@ -399,6 +461,18 @@ impl<S: TreeSink> TracingSink<S> {
     fn log(&self, line: String, which: Vec<&'static str>) {
         let idx = self.trace.borrow().len();
         let op = line.split(',').next().unwrap_or("").to_string();
+        {
+            let poisoned = self.poisoned.borrow();
+            if !poisoned.is_empty() {
+                for h in handle_args(&line) {
+                    if poisoned.get(h).copied().unwrap_or(false) {
+                        self.poison_hits
+                            .borrow_mut()
+                            .push((idx, format!("{}:h{}", op, h)));
+                    }
+                }
+            }
+        }
         self.trace.borrow_mut().push(line);
         for w in which {
             self.violations.borrow_mut().push((idx, format!("{}:{}", op, w)));
@@ -409,6 +483,48 @@ impl<S: TreeSink> TracingSink<S> {
         if !self.shadow.borrow().is_element(h) {
             which.push("not-an-element");
         }
+    }
+
+    /// C18: simulate a collection.  Everything connected to one of `roots` through parent, children
+    /// and template-contents links survives; every other handle-bearing node created so far is
+    /// poisoned.  Returns (number of surviving nodes, number of nodes poisoned by this collection).
+    pub fn collect(&self, roots: &[usize]) -> (usize, usize) {
+        let sh = self.shadow.borrow();
+        let n = sh.nodes.len();
+        let mut live = vec![false; n];
+        let mut stack: Vec<usize> = vec![];
+        for &r in roots {
+            if r < n && !live[r] {
+                live[r] = true;
+                stack.push(r);
+            }
+        }
+        while let Some(x) = stack.pop() {
+            let node = &sh.nodes[x];
+            let mut next: Vec<usize> = node.children.clone();
+            if let Some(p) = node.parent {
+                next.push(p);
+            }
+            if let Some(t) = node.template_contents {
+                next.push(t);
+            }
+            for y in next {
+                if y < n && !live[y] {
+                    live[y] = true;
+                    stack.push(y);
+                }
+            }
+        }
+        let mut poisoned = self.poisoned.borrow_mut();
+        poisoned.resize(n, false);
+        let mut newly = 0;
+        for i in 0..n {
+            if !live[i] && !poisoned[i] {
+                poisoned[i] = true;
+                newly += 1;
+            }
+        }
+        (live.iter().filter(|&&b| b).count(), newly)
     }
 
     pub fn number_of_handles(&self) -> usize {
